@@ -8,11 +8,12 @@ wt = f"/tmp/mut_{pid}{rnd}"
 prev = ""
 if rnd:
     import os
-    pm = f"/verif/seeded/{pid}-a/meta.json"
-    if os.path.exists(pm):
-        prev = ("\n\nIMPORTANT: another engineer already produced the following change for this property; yours must be a DIFFERENT one "
+    import glob
+    sums = [json.load(open(pm))["summary"] for pm in sorted(glob.glob(f"/verif/seeded/{pid}-*/meta.json"))]
+    if sums:
+        prev = ("\n\nIMPORTANT: other engineers already produced the following change(s) for this property; yours must be a DIFFERENT one "
                 "(a different code site or a different mechanism, and a different situation in which it manifests): "
-                + json.load(open(pm))["summary"] + "\nFor this round you only need to run the test files relevant to the code you touch "
+                + " /// ".join(sums) + "\nFor this round you only need to run the test files relevant to the code you touch "
                 "(not the full suite, which takes over half an hour on this shared machine); the full suite will be run by the lead afterwards, "
                 "so be conservative: if in doubt whether some existing test exercises your change, check by grepping the tests.")
 print(f"""You are a careful software engineer helping to evaluate a verification effort for the open-source Python library kuznia-rdzeni/transactron (a library for Amaranth HDL that elaborates Bluespec-style transactions and methods into hardware, plus FIFOs, memories, allocators...). You work ONLY in your own scratch git worktree of the repository at {wt} (already created for you, at the pinned commit). Do not look at or touch /repo or /verif or any other directory outside {wt} and /tmp/mutwork_{pid}{rnd} (your private scratch dir for demonstrations; create it). The Python interpreter with all dependencies is /venv/bin/python; to make it import the library from your worktree run everything with `cd {wt}` and `PYTHONPATH={wt}` (check once with `PYTHONPATH={wt} /venv/bin/python -c "import transactron; print(transactron.__file__)"`).
